@@ -280,6 +280,9 @@ func (comp) Extra(prop string, tier string, seed int64, scratch string) *core.Ex
 	rounds, scale, budget := 10, 1, 36*time.Second
 	if prop != "C14" && prop != "" {
 		rounds, budget = 12, 12*time.Second
+		if prop == "C05" {
+			budget = 20 * time.Second
+		}
 	}
 	c.watchdog = 25 * time.Second
 	if tier == "thorough" {
@@ -324,7 +327,7 @@ func (comp) Extra(prop string, tier string, seed int64, scratch string) *core.Ex
 		case "C20": // FIFO sharded cache under concurrent use
 			steps = []func(*collector, int64, int){phaseFifo}
 		case "C05": // the two indexes and the counters at quiescent instants of concurrent histories
-			steps = []func(*collector, int64, int){phaseTxAddOnly, phaseTxMixed, phaseTxClear}
+			steps = []func(*collector, int64, int){phaseTxLimits, phaseTxMixed, phaseTxEvict, phaseTxAddOnly, phaseTxClear, phaseConcurrentMap}
 		case "C16": // the storage unit after concurrent use: cache and persister agree at every quiescent instant
 			steps = []func(*collector, int64, int){phaseStorageUnit}
 		}
